@@ -2450,31 +2450,31 @@ func (lg *ledger) boundFacts(b *ssa.BasicBlock) (out []diffC) {
 				_ = x
 			case *ssa.UnOp:
 				func() {
-				// an element of the []int a function of the module returned: what the function guarantees about its elements
-				if x.Op != token.MUL || !isIntType(x.Type()) || lg.depth >= 2 {
-					return
-				}
-				ia, isIA := x.X.(*ssa.IndexAddr)
-				if !isIA {
-					return
-				}
-				call, isCall := ia.X.(*ssa.Call)
-				if !isCall || call.Call.StaticCallee() == nil || call.Call.StaticCallee() == lg.fn {
-					return
-				}
-				g := call.Call.StaticCallee()
-				if len(g.Params) != len(call.Call.Args) {
-					return
-				}
-				for _, ps := range lg.w.elemPostsOf(g) {
-					switch ps.kind {
-					case "nonneg":
-						out = append(out, diffC{"0", lg.key(x), 0})
-					case "ltParam":
-						ab, ao := lg.term(call.Call.Args[ps.param])
-						out = append(out, diffC{lg.key(x), ab, ao - 1})
+					// an element of the []int a function of the module returned: what the function guarantees about its elements
+					if x.Op != token.MUL || !isIntType(x.Type()) || lg.depth >= 2 {
+						return
 					}
-				}
+					ia, isIA := x.X.(*ssa.IndexAddr)
+					if !isIA {
+						return
+					}
+					call, isCall := ia.X.(*ssa.Call)
+					if !isCall || call.Call.StaticCallee() == nil || call.Call.StaticCallee() == lg.fn {
+						return
+					}
+					g := call.Call.StaticCallee()
+					if len(g.Params) != len(call.Call.Args) {
+						return
+					}
+					for _, ps := range lg.w.elemPostsOf(g) {
+						switch ps.kind {
+						case "nonneg":
+							out = append(out, diffC{"0", lg.key(x), 0})
+						case "ltParam":
+							ab, ao := lg.term(call.Call.Args[ps.param])
+							out = append(out, diffC{lg.key(x), ab, ao - 1})
+						}
+					}
 				}()
 				// a load of an int field that is only ever incremented from a non-negative start
 				if x.Op == token.MUL {
